@@ -89,7 +89,8 @@ def cases(draw):
     order = draw(st.permutations(sorted(events)))
     return {'text_mode': text_mode, 'steps': steps, 'events': events, 'order': list(order),
             'as_list': draw(st.booleans()), 'exit': draw(st.sampled_from([0, 0, 3, 77])),
-            'withexit': draw(st.booleans()), 'slow': slow, 'extra': draw(st.sampled_from([None, 'xa', 7]))}
+            'withexit': draw(st.booleans()), 'slow': slow, 'extra': draw(st.sampled_from([None, 'xa', 7])),
+            'default_timeout': draw(st.integers(0, 3)) == 0}
 
 
 class Responder(object):
@@ -113,7 +114,7 @@ def respond(log, what, name, d):
 
 def check_case(case, col=None):
     text_mode = case['text_mode']
-    T = 0.6 if case['slow'] else 5.0
+    T = 0.6 if case['slow'] else (-1 if case.get('default_timeout') else 5.0)       # -1: run()'s "use the default" (30 s)
     conv = (lambda s: s) if text_mode else (lambda s: s.encode('utf-8'))
     # ---- the child script and the model, step by step
     actions = []
